@@ -10,10 +10,12 @@ CONSTANTS
   MaxFaults = 1
   MaxRestarts = 1
   MaxProbes = 1
+  MaxNoops = 2
   WithSettle = TRUE
   PauseAtomic = TRUE
   StartRollback = TRUE
   EntityGC = TRUE
   PollerExits = TRUE
   SharedKept = TRUE
+  JoinedStopped = TRUE
   BarrierExits = TRUE
